@@ -159,7 +159,9 @@ func (e *Engine) Begin(ctx context.Context, lock bool) (*Transaction, error) {
 	// acquire token (without lock); use a tomb-aware context so that a shutdown
 	// unblocks the acquisition
 	e.mutex.Unlock()
+	verifPoint("begin.unlocked", e)
 	ok = e.token.Acquire(e.tomb.Context(ctx).Done(), time.Minute)
+	verifPoint("begin.acquired", e)
 	e.mutex.Lock()
 	if !ok {
 		if !e.tomb.Alive() {
@@ -185,6 +187,7 @@ func (e *Engine) Begin(ctx context.Context, lock bool) (*Transaction, error) {
 
 	// create transaction
 	e.txn = NewTransaction(e.catalog)
+	verifPoint("begin.return", e)
 
 	return e.txn, nil
 }
@@ -196,6 +199,7 @@ func (e *Engine) Commit(txn *Transaction) error {
 	// acquire lock
 	e.mutex.Lock()
 	defer e.mutex.Unlock()
+	verifPoint("commit.locked", e)
 
 	// check if closed
 	if !e.tomb.Alive() {
@@ -225,15 +229,18 @@ func (e *Engine) Commit(txn *Transaction) error {
 	txn.Clean(e.opts.MinOplogSize, e.opts.MaxOplogSize, e.opts.MinOplogAge, e.opts.MaxOplogAge)
 
 	// write catalog
+	verifPoint("commit.store", e)
 	err := e.store.Store(txn.Catalog())
 	if err != nil {
 		return err
 	}
 
 	// set new catalog
+	verifPoint("commit.publish", e)
 	e.catalog = txn.Catalog()
 
 	// broadcast change
+	verifPoint("commit.broadcast", e)
 	for stream := range e.streams {
 		select {
 		case stream.signal <- struct{}{}:
@@ -251,6 +258,7 @@ func (e *Engine) Abort(txn *Transaction) {
 	// acquire lock
 	e.mutex.Lock()
 	defer e.mutex.Unlock()
+	verifPoint("abort.locked", e)
 
 	// check if closed
 	if !e.tomb.Alive() {
@@ -267,6 +275,7 @@ func (e *Engine) Abort(txn *Transaction) {
 
 	// release token
 	e.token.Release()
+	verifPoint("abort.released", e)
 }
 
 // Watch will return a stream that is able to consume events from the oplog.
@@ -390,6 +399,7 @@ func (e *Engine) Close() {
 	// kill the tomb under the mutex, then release it so that in-flight Begin
 	// calls can re-acquire the mutex and observe the dead tomb
 	e.tomb.Kill(nil)
+	verifPoint("close.killed", e)
 	e.mutex.Unlock()
 
 	// close each stream under its own mutex so concurrent or subsequent
@@ -405,6 +415,7 @@ func (e *Engine) Close() {
 	}
 
 	// await goroutine termination
+	verifPoint("close.wait", e)
 	_ = e.tomb.Wait()
 }
 
